@@ -131,6 +131,8 @@ func SharedRun(w *World, rng *rand.Rand, ty string, ch, roFrames, wFrames, R, W,
 	}
 	var wg sync.WaitGroup
 	start := make(chan struct{})
+	concurrentRecording = true
+	defer func() { concurrentRecording = false }()
 	for g := 0; g < R+W; g++ {
 		wg.Add(1)
 		go func(g int) {
